@@ -281,6 +281,18 @@ def assemble(files, charset="bk", budget=None, wall=60.0, handler=None, reset=Tr
             except RecursionError as ex:
                 out.cls, out.exc_type, out.exc = "internal", "RecursionError", str(ex)[:200]
                 out.exc_where = "?"
+                try:
+                    # where the recursion goes round: the most frequent frame of the traceback
+                    seen = {}
+                    tb = ex.__traceback__
+                    while tb is not None:
+                        key = f"{os.path.basename(tb.tb_frame.f_code.co_filename)}:{tb.tb_frame.f_code.co_name}"
+                        seen[key] = seen.get(key, 0) + 1
+                        tb = tb.tb_next
+                    if seen:
+                        out.exc_where = "recursion in " + max(seen, key=seen.get)
+                except Exception:  # pylint: disable=broad-except
+                    pass
             except Exception as ex:  # pylint: disable=broad-except
                 out.cls = "internal"
                 out.exc_type = type(ex).__name__
